@@ -2,7 +2,7 @@
     harness wrote (real fabio outputs next to the inputs that produced them). *)
 From Coq Require Import String List NArith ZArith Bool.
 From Fabio Require Import Lib.Outcome Lib.Bytes Lib.Verdict
-     Model.FlagSet Model.KVSlice Model.GlobCacheSize.
+     Model.FlagSet Model.KVSlice Model.GlobCacheSize Model.StartUp.
 Import ListNotations.
 Local Open Scope N_scope.
 
@@ -55,9 +55,15 @@ Inductive case :=
 (* glob.cache.size = size: did config.Load accept it; if so a fresh
    route.NewGlobCache(cfg.GlobCacheSize) and a sequence of Get calls (pattern,
    glob.Compile succeeds); impl = Err 1 when Load returned an error;
-   [matching_disabled] = glob.matching.disabled was set to true (main builds the cache anyway) *)
+   [matching_disabled] = glob.matching.disabled was set to true (main builds the cache anyway);
+   per Get: Ok hit = the pattern was in the cache's map before the call; [final] = (h, n, keys
+   of the map) after the sequence, when the cache was built *)
 | CGlob (size : Z) (matching_disabled : bool) (accepted : bool) (calls : list (str * bool))
-        (impl : outcome (list (outcome bool)))
+        (impl : outcome (list (outcome bool))) (final : option (N * N * list str))
+(* metrics.interval = interval (ns), metrics.target with / without a ticker-driven provider:
+   did config.Load accept it, and what did starting the providers do in a child process:
+   out 0 started, 1 metrics.Initialize returned an error, 3 PANIC, 4 rejected by Load *)
+| CMetricsStart (interval : Z) (ticker_target accepted : bool) (out : N)
 (* 2-5 config.Load calls in ONE process; per step the option it sets (if any: raw value),
    [eq_ref] = the result (rendered right after the Load) equals the result of the same Load
    in a fresh process, [stable] = the returned object is still the same after all later Loads *)
@@ -216,6 +222,16 @@ Definition check_case (c : case) : N :=
                   | Ok (Some _) => (out =? 0) || (out =? 1)      (* parseListen decides *)
                   end in
       verdict same (negb (out =? 3)) None (match m with Err 2 => true | _ => false end)
+  | CMetricsStart interval ticker accepted out =>
+      let m := load_then_start_metrics interval ticker in
+      let same := Bool.eqb accepted (load_accepts_metrics_interval interval)
+                  && match m with
+                     | Ok _ => out =? 0
+                     | Err _ => out =? 4
+                     | Panic => out =? 3
+                     end in
+      let spec := negb accepted || negb (out =? 3) in
+      verdict same spec None (ticker && accepted)
   | CHistory steps eq_ref stable =>
       (* model: a history is the list of single Loads; per step the option's Value.Set
          receives what that step alone supplies, whatever was loaded before *)
@@ -228,11 +244,21 @@ Definition check_case (c : case) : N :=
       let impl_ok := forallb (fun b => b) eq_ref && forallb (fun b => b) stable
                      && Nat.eqb (length eq_ref) n && Nat.eqb (length stable) n in
       verdict (Bool.eqb model_ok impl_ok) impl_ok None (Nat.leb 2 n)
-  | CGlob size disabled accepted calls impl =>
+  | CGlob size disabled accepted calls impl final =>
       (* impl = Err 1 when config.Load returned an error (nothing to run) *)
       let m := load_then_use_settings size disabled calls in
-      let same := out_eqb (list_eqb (out_eqb (fun _ _ : bool => true))) impl m
-                  && Bool.eqb accepted (load_accepts_glob_settings size disabled) in
+      let final_same :=
+        match final, new_glob_cache size with
+        | Some (h, n, keys), Ok c0 =>
+            let c := glob_final c0 calls in
+            (N.of_nat (g_h c) =? h) && (N.of_nat (g_n c) =? n)
+            && Nat.eqb (length keys) (length (g_m c))
+            && forallb (fun k => mem k (g_m c)) keys
+        | Some _, _ => false
+        | None, _ => true
+        end in
+      let same := out_eqb (list_eqb (out_eqb Bool.eqb)) impl m
+                  && Bool.eqb accepted (load_accepts_glob_settings size disabled) && final_same in
       let panics := match impl with Panic => true | Ok l => has_panic l | Err _ => false end in
       let spec := negb accepted || negb panics in
       verdict same spec None (match calls with [] => false | _ => true end)
